@@ -949,17 +949,13 @@ func (vm *VM) throw(err *RuntimeError, noTrace bool) error {
 		return err
 	}
 
+	// switch to the handling frame first: if its innermost handler is already
+	// executing its finally block, unwinding must go on from this frame.
 	vm.frameIndex = index + 1
-
-	if e := vm.handleThrownError(frame, err); e != nil {
-		return e
-	}
-
 	vm.curFrame = frame
-	vm.curFrame.fn = frame.fn
 	vm.curInsts = frame.fn.Instructions
 
-	return nil
+	return vm.handleThrownError(frame, err)
 }
 
 func (vm *VM) handleThrownError(frame *frame, err *RuntimeError) error {
@@ -973,7 +969,8 @@ func (vm *VM) handleThrownError(frame *frame, err *RuntimeError) error {
 		vm.ip = handler.finally - 1
 	} else {
 		frame.errHandlers.pop()
-		return vm.throw(err, false)
+		// position info is already in the trace
+		return vm.throw(err, true)
 	}
 
 	if vm.sp >= handler.sp {
